@@ -11,9 +11,12 @@ import (
 	"io"
 	"math/rand"
 	"sort"
+	"strings"
 
 	"github.com/westerndigitalcorporation/blb/client/blb"
 	"github.com/westerndigitalcorporation/blb/internal/core"
+	"github.com/westerndigitalcorporation/blb/internal/curator"
+	"github.com/westerndigitalcorporation/blb/internal/tractserver"
 	vw "github.com/westerndigitalcorporation/blb/pkg/verifwire"
 )
 
@@ -90,14 +93,14 @@ type opMeta struct {
 
 // Weights of the generic actions.
 type Weights struct {
-	Deliver, ReplyExec, Write, Read, Replicate, ReplicateDuringWrite, ThirdPartyFix, Restart, Leader, LeaderDuringTask, Heartbeat, Complaint, Probe int
+	Deliver, ReplyExec, Write, Read, Replicate, ReplicateDuringWrite, ReplicateAfterLeader, ThirdPartyFix, Restart, Leader, LeaderDuringTask, Heartbeat, Complaint, Probe int
 	// per-mille mode probabilities for a delivery
 	PLose, PFail, PTwice, PExecOnly int
 	PReplyLose                      int
 }
 
 func DefaultWeights() Weights {
-	return Weights{Deliver: 10, ReplyExec: 10, Write: 14, Read: 7, Replicate: 3, ReplicateDuringWrite: 25, ThirdPartyFix: 1,
+	return Weights{Deliver: 10, ReplyExec: 10, Write: 14, Read: 7, Replicate: 3, ReplicateDuringWrite: 25, ReplicateAfterLeader: 20, ThirdPartyFix: 1,
 		Restart: 1, Leader: 1, LeaderDuringTask: 12, Heartbeat: 10, Complaint: 6, Probe: 1,
 		PLose: 70, PFail: 40, PTwice: 30, PExecOnly: 80, PReplyLose: 150}
 }
@@ -128,13 +131,17 @@ type Driver struct {
 	lastRPC   *RPC
 	known     map[*RPC]bool
 	nFaults   int
+	prePull   *curator.VerifTractState
+	// Tainted[tract] = a PullTract re-copied a replica that already had the requested version and
+	// changed its content (finding F20); read findings on such a tract carry a signature suffix.
+	Tainted map[core.TractID]bool
 }
 
 // NewDriver builds a cluster with nTS tractservers and clients (0 = the writer, caching per flag).
 func NewDriver(r *vw.Rng, nTS int, caches []bool, caseID string) *Driver {
 	rand.Seed(int64(r.U64() >> 1)) // the code under test draws from math/rand (read order, placement)
 	d := &Driver{Cl: NewCluster(nTS, caches), R: r, W: DefaultWeights(), Snap: NewSnap(), NextWid: 1, Case: caseID,
-		known: map[*RPC]bool{}, MaxTracts: 3}
+		known: map[*RPC]bool{}, MaxTracts: 3, Tainted: map[core.TractID]bool{}}
 	for i := range caches {
 		d.Clients = append(d.Clients, &ClientState{Idx: i, Blobs: map[int]*blb.Blob{}, Tau: map[int]map[int]int{}})
 	}
@@ -172,6 +179,13 @@ func b2i(b bool) int64 {
 }
 
 func (d *Driver) report(b Bad) {
+	if strings.Contains(b.Sig, "-read-") && b.Detail != nil {
+		bi, ok1 := b.Detail["blob"].(int)
+		pos, ok2 := b.Detail["pos"].(int64)
+		if ok1 && ok2 && bi >= 0 && bi < len(d.Blobs) && d.Tainted[d.tractID(bi, int(pos/TractLen))] {
+			b.Sig += "-after-same-version-repull"
+		}
+	}
 	d.Bads = append(d.Bads, b)
 }
 
@@ -243,6 +257,9 @@ func (d *Driver) StartRead(client, blob int, off int64, n int) *Event {
 	ev := &Event{Code: EvStartRead, Args: []int64{int64(op.ID), int64(client), int64(blob), off, int64(n)}}
 	return d.after(ev)
 }
+
+// TractID is the real id of tract 'tract' of blob number 'blob'.
+func (d *Driver) TractID(blob, tract int) core.TractID { return d.tractID(blob, tract) }
 
 func (d *Driver) tractID(blob, tract int) core.TractID {
 	return core.TractID{Blob: d.Blobs[blob].ID, Index: core.TractKey(tract)}
@@ -362,6 +379,13 @@ func (d *Driver) Step(r *RPC, mode int) *Event {
 		d.nFaults++
 	}
 	d.pinPlacement(r)
+	d.prePull = nil
+	if r.Kind == KPullTract {
+		if bi := d.blobIdx(r.Blob); bi >= 0 {
+			st := d.Cl.D.Tract(d.tractID(bi, r.Tract))
+			d.prePull = &st
+		}
+	}
 	d.Cl.S.Start(r, mode)
 	return d.after(ev)
 }
@@ -444,6 +468,9 @@ func (d *Driver) after(ev *Event) *Event {
 	for _, r := range s.TakeCompleted() {
 		ev.Resumed = append(ev.Resumed, r)
 		delete(d.known, r)
+		if r.Kind == KFixVersion && r.Client >= 0 && r.Execs > 0 {
+			d.markOrphans(ev, r.ExecGen, d.blobIdx(r.Blob), r.Tract) // the fixVersion it ran has returned
+		}
 		if r.Kind == KGetTracts && r.Delivered && r.Client >= 0 {
 			if bi := d.blobIdx(r.Blob); bi >= 0 {
 				tau, _ := r.Meta.(int)
@@ -471,6 +498,7 @@ func (d *Driver) after(ev *Event) *Event {
 			for _, b := range CheckFrame(d.lastRPC, before, after, d.Snap) {
 				d.report(b)
 			}
+			d.checkRepull(d.lastRPC, before, after)
 		} else if ev.Code != EvRestartTS {
 			// a server changed without an RPC addressed to it in this step
 			for id, a := range after {
@@ -521,11 +549,50 @@ func (d *Driver) after(ev *Event) *Event {
 					break
 				}
 			}
+			d.markOrphans(ev, m.gen, m.blob, m.tract)
 		}
 	}
 	ev.OpLines, ev.ObsLines = d.Lines(ev)
 	d.Events = append(d.Events, ev)
 	return ev
+}
+
+// checkRepull: a PullTract executed at a server that already held the tract at the requested
+// version.  If that changed the replica, writes the old copy had are gone from it; if the replica is
+// at that moment a committed member of the repl group at that version, this is finding F20 (a
+// superseded re-replication's pull clobbers a replica another leader committed).
+func (d *Driver) checkRepull(r *RPC, before, after map[core.TractID]tractserver.VerifReplica) {
+	if r.Kind != KPullTract {
+		return
+	}
+	tid := core.TractID{Blob: core.BlobID(r.Blob), Index: core.TractKey(r.Tract)}
+	b, ok := before[tid]
+	if !ok || !b.HasVersion || b.Version != r.Version {
+		return
+	}
+	a, oka := after[tid]
+	if oka && replicaEqual(a, b) {
+		return
+	}
+	if d.prePull == nil {
+		return
+	}
+	st := *d.prePull // the durable record BEFORE the pull ran (its own task may commit in the same step)
+	isHost := false
+	for _, h := range st.Hosts {
+		if int(h) == r.TS {
+			isHost = true
+		}
+	}
+	if st.OK && isHost && st.Version == r.Version {
+		d.Tainted[tid] = true
+		det := map[string]interface{}{"rpc": r.String(), "before": fmt.Sprintf("v%d len%d %v", b.Version, b.Len, b.Runs)}
+		if oka {
+			det["after"] = fmt.Sprintf("v%d len%d %v", a.Version, a.Len, a.Runs)
+		}
+		d.report(Bad{Sig: "pull-clobbers-committed-replica-same-version",
+			What: "PullTract of a superseded re-replication overwrote a replica that is a committed host of the tract at that version", Detail: det})
+	}
 }
 
 // checkClientRead judges a finished ReadAt of a real client against the oracle, tract by tract
@@ -755,6 +822,42 @@ func (d *Driver) randomBad(blob, tract int) []int {
 	return bad
 }
 
+// markOrphans flags the calls a curator activity on (gen, tract) left behind when it returned
+// (fan-out stragglers).  The fault model lets a request execute at most before its issuer's next
+// step, so the scheduler resolves them (execute or drop) before doing anything else.
+func (d *Driver) markOrphans(ev *Event, gen, blob, tract int) {
+	fresh := map[*RPC]bool{}
+	for _, r := range ev.NewRPCs {
+		fresh[r] = true
+	}
+	for _, r := range d.Cl.S.Pending() {
+		if r.Client < 0 && r.Gen == gen && d.blobIdx(r.Blob) == blob && r.Tract == tract && !fresh[r] {
+			r.Orphan = true
+		}
+	}
+}
+
+func (d *Driver) orphan() *RPC {
+	for _, r := range d.Cl.S.Pending() {
+		if r.Orphan && (r.State == StParked || (r.State == StExecuted && !r.AutoSend)) {
+			return r
+		}
+	}
+	return nil
+}
+
+func (d *Driver) resolveOrphan(r *RPC, allowDrop bool) {
+	if r.State == StExecuted {
+		d.Reply(r, false)
+		return
+	}
+	if allowDrop && d.R.Chance(1, 2) {
+		d.Step(r, ModeFail)
+	} else {
+		d.Step(r, ModeDeliver)
+	}
+}
+
 // lockLoad counts activities of the current incarnation that hold or wait for a tract's lock.
 func (d *Driver) lockLoad(blob, tract int) int {
 	n := 0
@@ -777,6 +880,9 @@ func (d *Driver) Actions() []Action {
 	var acts []Action
 	w := d.W
 	s := d.Cl.S
+	if o := d.orphan(); o != nil {
+		return []Action{{1, func() { d.resolveOrphan(o, true) }}}
+	}
 	pend := s.Pending()
 	writesParked := map[[2]int]bool{}
 	pullExecuted := false
@@ -858,6 +964,29 @@ func (d *Driver) Actions() []Action {
 			d.Probe(t[0], t[1], d.R.PickInt(0, 2, 2, 1, 1, 3), d.R.PickInt(0, 1, 1))
 		}})
 	}
+	// the new leader repairs a tract for which an old leader's PullTract is still in flight
+	for _, r := range pend {
+		r := r
+		if r.Kind == KPullTract && r.State == StParked && r.Gen < d.Cl.Cur.Gen && len(d.tasks) < 3 {
+			bi := d.blobIdx(r.Blob)
+			if bi < 0 || d.lockLoad(bi, r.Tract) > 0 {
+				continue
+			}
+			src := map[int]bool{}
+			for _, x := range r.Aux[1:] {
+				src[int(x)] = true
+			}
+			var bad []int
+			for _, h := range d.Cl.D.Tract(d.tractID(bi, r.Tract)).Hosts {
+				if !src[int(h)] {
+					bad = append(bad, int(h))
+				}
+			}
+			if len(bad) > 0 {
+				acts = append(acts, Action{w.ReplicateAfterLeader, func() { d.StartReplicate(bi, r.Tract, bad) }})
+			}
+		}
+	}
 	// complaints queued by ReportBadTS -> the recovery loop would re-replicate
 	if len(d.tasks) < 3 {
 		if cs := d.Cl.Cur.DrainComplaints(); len(cs) > 0 {
@@ -929,6 +1058,10 @@ func (d *Driver) Quiesce() bool {
 			if !d.Cl.Cur.KnowsTS(core.TractserverID(j)) {
 				d.Heartbeat(j)
 			}
+		}
+		if o := d.orphan(); o != nil {
+			d.resolveOrphan(o, false)
+			continue
 		}
 		pend := d.Cl.S.Pending()
 		if len(pend) == 0 {
